@@ -200,7 +200,7 @@ class World:
         self.names = [spelled if i % 2 == 0 else "~/kd$C07VAR/current/../app${C07VAR}.key" for i in range(nobj)]
         if not aes:
             import pathlib
-            self.names[0] = pathlib.Path(spelled)        # a path object instead of a string (the one-object jobs)
+            self.names[0] = pathlib.Path("~/kd$C07VAR/current/../app${C07VAR}.key")        # a (home-relative) path object instead of a string (the one-object jobs)
         import shutil
         shutil.rmtree(top, ignore_errors=True)
         os.makedirs(os.path.join(self.dir, "7"))
